@@ -15,6 +15,31 @@ theorem snoc_induction {α} {P : List α → Prop} (nil : P [])
   intro l
   simpa using h l [] nil
 
+/-- a duplicate-free list splits at an element in one way only -/
+theorem nodup_split_unique {α} {a : α} {pre post pre' post' : List α} (hn : (pre ++ a :: post).Nodup)
+    (h : pre ++ a :: post = pre' ++ a :: post') : pre' = pre := by
+  induction pre generalizing pre' with
+  | nil =>
+    cases pre' with
+    | nil => rfl
+    | cons x p =>
+      simp only [List.nil_append, List.cons_append, List.cons.injEq] at h
+      obtain ⟨rfl, h⟩ := h
+      simp only [List.nil_append, List.nodup_cons] at hn
+      exact absurd (by rw [h]; simp) hn.1
+  | cons x p ih =>
+    cases pre' with
+    | nil =>
+      simp only [List.nil_append, List.cons_append, List.cons.injEq] at h
+      obtain ⟨rfl, h⟩ := h
+      simp only [List.cons_append, List.nodup_cons] at hn
+      exact absurd (by simp) hn.1
+    | cons y p' =>
+      simp only [List.cons_append, List.cons.injEq] at h
+      obtain ⟨rfl, h⟩ := h
+      simp only [List.cons_append, List.nodup_cons] at hn
+      rw [ih hn.2 h]
+
 section addKey
 variable {α : Type} [DecidableEq α]
 
